@@ -17,6 +17,8 @@ import time
 
 VERIF = os.path.dirname(os.path.dirname(os.path.abspath(__file__)))
 SEEDS = os.path.join(VERIF, "seeded")
+REPO = os.environ.get("SEED_REPO", "/repo")  # a scratch worktree may be used so that two matrix runs can work side by side
+MATRIX = os.environ.get("SEED_MATRIX_FILE", os.path.join(SEEDS, "MATRIX.json"))
 # checks other than the seed's own property that are also run against it (cheap or closely related)
 EXTRA = {
     "C02_1": ["C06", "C10"], "C06_2": ["C02"], "C10_1": ["C02", "C06"], "C09_1": ["C13"], "C09_2": ["C10", "C11"], "C11_1": ["C12"], "C12_1": ["C11"],
@@ -30,7 +32,7 @@ def sh(cmd, **kw):
 
 
 def run_check(prop, scratch):
-    env = dict(os.environ, VERIF_EVIDENCE_DIR=os.path.join(scratch, "ev"), VERIF_REPLAY_DIR=os.path.join(scratch, "rp"), VERIF_SEED="0")
+    env = dict(os.environ, VERIF_EVIDENCE_DIR=os.path.join(scratch, "ev"), VERIF_REPLAY_DIR=os.path.join(scratch, "rp"), VERIF_SEED="0", VERIF_REPO=REPO)
     t0 = time.time()
     r = subprocess.run(["./check", prop, "--tier", "quick"], cwd=VERIF, env=env, capture_output=True, text=True)
     out = r.stdout + r.stderr
@@ -45,37 +47,37 @@ def main():
     ids = sys.argv[1:] or sorted(d for d in os.listdir(SEEDS) if os.path.isfile(os.path.join(SEEDS, d, "patch.diff")))
     scratch = tempfile.mkdtemp(prefix="seedmatrix_")
     matrix = {}
-    if os.path.exists(os.path.join(SEEDS, "MATRIX.json")):
-        matrix = json.load(open(os.path.join(SEEDS, "MATRIX.json")))
+    if os.path.exists(MATRIX):
+        matrix = json.load(open(MATRIX))
     try:
         for sid in ids:
             d = os.path.join(SEEDS, sid)
-            if sh("git -C /repo diff --quiet").returncode != 0:
-                print("/repo not clean; stopping")
+            if sh(f"git -C {REPO} diff --quiet").returncode != 0:
+                print(REPO, "not clean; stopping")
                 return 9
-            head = sh("git -C /repo rev-parse --short HEAD").stdout.strip()
-            r = sh(f"git -C /repo apply {d}/patch.diff")
+            head = sh(f"git -C {REPO} rev-parse --short HEAD").stdout.strip()
+            r = sh(f"git -C {REPO} apply {d}/patch.diff")
             if r.returncode != 0:
                 print(sid, "patch does not apply:", r.stderr[:200])
                 matrix[sid] = {"error": "patch does not apply to " + head}
                 continue
             try:
                 res = {"repo_head": head, "checks": {}}
-                p = sh("./check spec:all", cwd=VERIF, env=dict(os.environ, VERIF_EVIDENCE_DIR=os.path.join(scratch, "ev"), VERIF_REPLAY_DIR=os.path.join(scratch, "rp")))
+                p = sh("./check spec:all", cwd=VERIF, env=dict(os.environ, VERIF_EVIDENCE_DIR=os.path.join(scratch, "ev"), VERIF_REPLAY_DIR=os.path.join(scratch, "rp"), VERIF_REPO=REPO))
                 res["tier_P_alone"] = {"exit": p.returncode, "not_verified": re.findall(r"^NOT-VERIFIED (.*)$", p.stdout, flags=re.M)[:8]}
                 prop = sid.split("_")[0]
                 for pr in [prop] + EXTRA.get(sid, []):
                     res["checks"][pr] = run_check(pr, scratch)
                     print(sid, pr, "exit", res["checks"][pr]["exit"], res["checks"][pr]["contracts"][:2], flush=True)
             finally:
-                sh("git -C /repo checkout -- .")
+                sh(f"git -C {REPO} checkout -- .")
             json.dump(res, open(os.path.join(d, "detected.json"), "w"), indent=1)
             matrix[sid] = {"own_check_exit": res["checks"][prop]["exit"], "caught_by": sorted(k for k, v in res["checks"].items() if v["exit"] == 1), "missed_by": sorted(k for k, v in res["checks"].items() if v["exit"] == 0),
                            "tier_P_alone": bool(res["tier_P_alone"]["not_verified"])}
-            json.dump(matrix, open(os.path.join(SEEDS, "MATRIX.json"), "w"), indent=1, sort_keys=True)
+            json.dump(matrix, open(MATRIX, "w"), indent=1, sort_keys=True)
     finally:
         shutil.rmtree(scratch, ignore_errors=True)
-        sh("git -C /repo checkout -- .")
+        sh(f"git -C {REPO} checkout -- .")
     return 0
 
 
